@@ -6,6 +6,12 @@
 //! compared only on cycles where none of its observed values carries X/Z.
 //! The repo's own cc-vs-Cranelift dual-run validator (`aot_c_validate`) runs as
 //! one more engine; its panic is a violation.
+//!
+//! Workload: a FIXED corpus of generated designs (design #i comes from a
+//! constant corpus seed, so "design #i" names one specific input for ever);
+//! `VERIF_SEED` drives the stimuli.  This is what lets genuine engine defects
+//! be recorded as known findings "design #i under engine E" — exact inputs —
+//! while any other (design, engine) disagreement still fails the check.
 
 use crate::common::{Accept, accept};
 use std::sync::Arc;
@@ -16,6 +22,10 @@ use vcommon::{Args, Json, Rng, Run, json};
 use veryl_simulator::Config;
 use vgen::sim::{Stimulus, Trace, run as sim_run, stimulus};
 use vgen::{Design, GenOpts, generate};
+
+/// Constant: changing it (or DesignGen) changes every design of the corpus and
+/// invalidates known.d/C02.json.
+pub const CORPUS_SEED: u64 = 0xC02_C0DE_2026;
 
 pub fn engines(with_cc: bool) -> Vec<(String, Config)> {
     let mut v = vec![];
@@ -63,6 +73,16 @@ pub fn pick_opts(rng: &mut Rng) -> (GenOpts, &'static str) {
     }
 }
 
+/// Design #i of the fixed corpus.
+pub fn corpus_design(i: u64) -> (Design, &'static str) {
+    let mut rng = Rng::for_case(CORPUS_SEED, "C02-corpus", i);
+    let (mut opts, mode) = pick_opts(&mut rng);
+    if let Ok(w) = std::env::var("VERIF_MAX_WIDTH") {
+        opts.max_width = opts.max_width.min(w.parse().unwrap());
+    }
+    (generate(&mut rng, &opts), mode)
+}
+
 #[derive(Default)]
 pub struct CaseOut {
     pub status: String,
@@ -73,9 +93,25 @@ pub struct CaseOut {
     pub engine_build_errors: Vec<(String, String)>,
     pub comparisons: u64,
     pub xmasked: u64,
-    pub mismatch: Option<Json>,
-    pub engine_panic: Option<(String, String, String)>,
+    /// one entry per engine that differs from the reference
+    pub mismatches: Vec<Json>,
+    /// (engine, message, location) per engine that panicked
+    pub engine_panics: Vec<(String, String, String)>,
     pub codes: Vec<String>,
+}
+
+impl CaseOut {
+    /// stable description of which engines fail on this design ("jit:mismatch", "jit+4state:panic"…)
+    pub fn failing(&self) -> Vec<String> {
+        let mut v: Vec<String> = self
+            .mismatches
+            .iter()
+            .map(|m| m["engine"].as_str().unwrap_or("?").to_string())
+            .chain(self.engine_panics.iter().map(|p| format!("{}:panic", p.0)))
+            .collect();
+        v.sort();
+        v
+    }
 }
 
 fn trace_row(t: &Trace, c: usize) -> Vec<String> {
@@ -83,12 +119,8 @@ fn trace_row(t: &Trace, c: usize) -> Vec<String> {
 }
 
 pub fn run_case(seed: u64, i: u64, cycles: usize, with_cc: bool) -> CaseOut {
-    let mut rng = Rng::for_case(seed, "C02", i);
-    let (mut opts, mode) = pick_opts(&mut rng);
-    if let Ok(w) = std::env::var("VERIF_MAX_WIDTH") {
-        opts.max_width = opts.max_width.min(w.parse().unwrap());
-    }
-    let d = generate(&mut rng, &opts);
+    let (d, mode) = corpus_design(i);
+    let mut rng = Rng::for_case(seed, "C02-stim", i);
     let stim = stimulus(&d, &mut rng, cycles);
     run_design(d, mode, stim, with_cc && i % 3 == 0)
 }
@@ -152,21 +184,22 @@ pub fn run_design_filtered(
                     "<panic>".into()
                 };
                 let loc = vcommon::pool::take_panic_info().map(|p| p.location).unwrap_or_default();
-                out.engine_panic = Some((name.clone(), msg, loc));
-                break;
+                out.engine_panics.push((name.clone(), msg, loc));
             }
             Ok(Err(e)) => out.engine_build_errors.push((name, e.lines().next().unwrap_or("").to_string())),
             Ok(Ok(t)) => {
                 out.engines_run.push(name.clone());
+                let mut reported = false;
                 for c in 0..t.steps.len().min(reference.steps.len()) {
                     if cfg.use_4state && t.steps[c].iter().any(|v| v.has_xz()) {
                         out.xmasked += 1;
                         continue;
                     }
                     out.comparisons += 1;
-                    if t.steps[c] != reference.steps[c] && out.mismatch.is_none() {
+                    if t.steps[c] != reference.steps[c] && !reported {
+                        reported = true;
                         let o = (0..t.steps[c].len()).find(|&o| t.steps[c][o] != reference.steps[c][o]).unwrap_or(0);
-                        out.mismatch = Some(json!({
+                        out.mismatches.push(json!({
                             "engine": name,
                             "reference_engine": "interp",
                             "cycle": c,
@@ -191,18 +224,19 @@ pub fn main(args: Args) {
     let run = Arc::new(Run::new(
         args.clone(),
         "exploration",
-        "cases = DesignGen designs (modes basic/default/wide/big/unreset_ffs/explicit_clock_reset) filtered by the real analyzer, \
-         each with a random reset+input stimulus, run under every engine Config (interpreter/JIT x 2/4-state x disable_ff_opt, \
-         cc comb-only, cc+event, cc+validate); non-trivial = accepted by the analyzer, simulated by >=4 engines, and the \
-         reference trace is not constant; distinct = distinct design texts",
+        "cases = designs #0..N of a fixed DesignGen corpus (modes basic/default/wide/big/unreset_ffs/explicit_clock_reset, filtered by the \
+         real analyzer), each with a VERIF_SEED-dependent random reset+input stimulus, run under every engine Config (interpreter/JIT x 2/4-state \
+         x disable_ff_opt, cc comb-only, cc+event, cc+validate on every third design); non-trivial = accepted by the analyzer and simulated by \
+         >=4 engines; distinct = distinct design texts",
     ));
     run.assume("the 2-state interpreter (Config::default) is the reference; an error common to all engines is invisible here (C01/C18 cover it)");
     run.assume("4-state engines are compared only on cycles without X/Z in their observed outputs");
+    run.assume("known findings are keyed on (corpus design index, engine): DesignGen and CORPUS_SEED are frozen");
     let with_cc = veryl_simulator::backend::aot_c::cc_available() && args.get("no_cc").is_none();
-    if !with_cc {
+    if !with_cc && args.get("no_cc").is_none() {
         run.inconclusive("cc backend unavailable: the cc engines were not exercised".into());
     }
-    let cycles = args.budget("cycles", 40, 200) as usize;
+    let cycles = args.budget("cycles", 40, 120) as usize;
 
     if let Some(rp) = &args.replay {
         let v: Json = serde_json::from_str(&std::fs::read_to_string(rp).expect("replay")).unwrap();
@@ -215,28 +249,23 @@ pub fn main(args: Args) {
             && let Some(d0) = first.design.clone()
         {
             // shrink the witness: same engine must still disagree / panic at the same place
-            let want_engine = first.mismatch.as_ref().map(|m| m["engine"].as_str().unwrap_or("").to_string());
-            let want_panic = first.engine_panic.as_ref().map(|p| p.2.clone());
-            let mut rng = Rng::for_case(seed, "C02", i);
-            let (opts, _) = pick_opts(&mut rng);
-            let d_again = generate(&mut rng, &opts);
-            let stim = stimulus(&d_again, &mut rng, cyc);
-            let only_engine: Option<String> = want_engine.clone().or_else(|| first.engine_panic.as_ref().map(|p| p.0.clone()));
+            let want_engine = v["case"]["engine"].as_str().map(|x| x.to_string()).or_else(|| first.failing().first().cloned());
+            let want_engine = want_engine.map(|e| e.trim_end_matches(":panic").to_string());
+            let mut rng = Rng::for_case(seed, "C02-stim", i);
+            let stim = stimulus(&d0, &mut rng, cyc);
             let allowed: Vec<String> = first.codes.clone();
             let mut keep = |text: &str| -> bool {
                 let mut d = d0.clone();
                 d.text = text.to_string();
                 let stim = stim.clone();
-                let only = only_engine.clone();
+                let only = want_engine.clone();
                 let allowed = allowed.clone();
+                let want = want_engine.clone();
                 let r = vcommon::pool::fresh_thread(STACK_64M, move || {
                     run_design_filtered(d, "reduce", stim, true, only.as_deref(), Some(&allowed))
                 });
                 match r {
-                    Ok(o) => {
-                        (want_engine.is_some() && o.mismatch.as_ref().map(|m| m["engine"].as_str().unwrap_or("").to_string()) == want_engine)
-                            || (want_panic.is_some() && o.engine_panic.as_ref().map(|p| p.2.clone()) == want_panic)
-                    }
+                    Ok(o) => want.is_some_and(|w| o.failing().iter().any(|f| f.trim_end_matches(":panic") == w)),
                     Err(_) => false,
                 }
             };
@@ -250,14 +279,62 @@ pub fn main(args: Args) {
         run.finish(&[]);
     }
 
-    let n = args.budget("cases", 120, 4000);
+    let n = args.budget("cases", 300, 4000);
     let seed = args.seed;
+
+    // `--set record=K`: list every (design, engine) pair that fails under stimulus seeds 0..K
+    // on the current tree, as a candidate known.d/C02.json (written to scratch, never used at run time).
+    if let Some(k) = args.get("record") {
+        let k: u64 = k.parse().unwrap();
+        let found = Arc::new(std::sync::Mutex::new(std::collections::BTreeMap::<String, String>::new()));
+        let f2 = found.clone();
+        par_cases(
+            n,
+            args.jobs,
+            STACK_64M,
+            move |i| {
+                let mut all = vec![];
+                for s in 0..k {
+                    let o = run_case(s, i, cycles, with_cc);
+                    for m in &o.mismatches {
+                        all.push((format!("design#{i}:{}", m["engine"].as_str().unwrap_or("?")), format!("trace differs from the interpreter (first seen stimulus seed {s}, cycle {}, {})", m["cycle"], m["output"])));
+                    }
+                    for p in &o.engine_panics {
+                        all.push((format!("design#{i}:{}:panic", p.0), format!("panics at {} ({})", p.2, p.1.lines().next().unwrap_or("").chars().take(80).collect::<String>())));
+                    }
+                }
+                all
+            },
+            move |_i, r| {
+                if let Ok(all) = r {
+                    let mut f = f2.lock().unwrap();
+                    for (sig, what) in all {
+                        f.entry(sig).or_insert(what);
+                    }
+                }
+            },
+        );
+        let list: Vec<Json> = found
+            .lock()
+            .unwrap()
+            .iter()
+            .map(|(sig, what)| {
+                json!({"property": "C02", "signature": sig, "status": "known",
+                       "what": format!("{sig} of the fixed C02 corpus: {what}"), "notes": "notes/C02.md"})
+            })
+            .collect();
+        let path = "/verif/scratch/C02.known.candidate.json";
+        std::fs::write(path, serde_json::to_string_pretty(&list).unwrap()).unwrap();
+        println!("recorded {} failing (design, engine) pairs over {n} designs x {k} stimulus seeds -> {path}", list.len());
+        std::process::exit(0);
+    }
+
     let run2 = run.clone();
     par_cases(n, args.jobs, STACK_64M, move |i| run_case(seed, i, cycles, with_cc), move |i, r| {
         run2.eval();
         report(&run2, i, r);
     });
-    run.finish(&[("designs_simulated", 60), ("port_value_comparisons", 100_000), ("engines", 8), ("designs_with_ff", 20)]);
+    run.finish(&[("designs_simulated", 150), ("port_value_comparisons", 100_000), ("engines", 8), ("designs_with_ff", 50)]);
 }
 
 fn report(run: &Run, i: u64, r: Result<CaseOut, vcommon::pool::PanicInfo>) {
@@ -288,7 +365,7 @@ fn report(run: &Run, i: u64, r: Result<CaseOut, vcommon::pool::PanicInfo>) {
             for e in &o.engines_run {
                 run.seen("engines", e);
             }
-            let failed = o.mismatch.is_some() || o.engine_panic.is_some();
+            let failed = !o.mismatches.is_empty() || !o.engine_panics.is_empty();
             for f in &d.features {
                 run.seen("features", f);
                 if std::env::var("VERIF_FEATURE_STATS").is_ok() {
@@ -302,10 +379,7 @@ fn report(run: &Run, i: u64, r: Result<CaseOut, vcommon::pool::PanicInfo>) {
                 run.count("fstat_sim_ALL", 1);
                 if failed {
                     run.count("fstat_bad_ALL", 1);
-                    let kind = o.mismatch.as_ref().map(|m| format!("mismatch:{}", m["engine"].as_str().unwrap_or("?"))).unwrap_or_else(|| {
-                        format!("panic:{}", o.engine_panic.as_ref().map(|p| p.2.rsplit('/').next().unwrap_or("").to_string()).unwrap_or_default())
-                    });
-                    run.count(&format!("fstat_kind_{kind}"), 1);
+                    run.count(&format!("fstat_kind_{}", o.failing().join("+")), 1);
                 }
             }
             for (e, msg) in &o.engine_build_errors {
@@ -316,22 +390,23 @@ fn report(run: &Run, i: u64, r: Result<CaseOut, vcommon::pool::PanicInfo>) {
                 run.nontrivial(hash_str(&d.text));
             }
             run.sample(json!({"case_index": i, "mode": o.mode, "features": d.features, "engines": o.engines_run.len(), "cycles": o.cycles, "design": d.text}));
-            if let Some((engine, msg, loc)) = &o.engine_panic {
+            for (engine, msg, loc) in &o.engine_panics {
                 let first = msg.lines().next().unwrap_or("").chars().take(160).collect::<String>();
                 run.violation(
-                    &format!("engine-panic:{loc}"),
-                    &format!("engine {engine} panicked at {loc} on a design the interpreter simulates: {first}"),
+                    &format!("design#{i}:{engine}:panic"),
+                    &format!("corpus design #{i}: engine {engine} panicked at {loc} on a design the interpreter simulates: {first}"),
                     json!({"case_index": i, "cycles": o.cycles, "engine": engine, "panic": msg, "location": loc, "design": d.text}),
                 );
             }
-            if let Some(m) = &o.mismatch {
+            for m in &o.mismatches {
+                let engine = m["engine"].as_str().unwrap_or("?");
                 run.violation(
-                    &format!("trace-mismatch:{}:case{}", m["engine"].as_str().unwrap_or("?"), i),
+                    &format!("design#{i}:{engine}"),
                     &format!(
-                        "engine {} differs from the interpreter at cycle {} on {}: {} vs {}",
+                        "corpus design #{i}: engine {} differs from the interpreter at cycle {} on {}: {} vs {}",
                         m["engine"], m["cycle"], m["output"], m["engine_value"], m["reference_value"]
                     ),
-                    json!({"case_index": i, "cycles": o.cycles, "mismatch": m, "design": d.text}),
+                    json!({"case_index": i, "cycles": o.cycles, "engine": engine, "mismatch": m, "design": d.text}),
                 );
             }
         }
